@@ -2,7 +2,7 @@
 # seedconfirm.sh <worktree>: baseline with the change, demo with / without the change (no check run)
 wt=$1
 cd $wt || exit 2
-echo "baseline with change: $(/tmp/mutkit/baseline.sh $wt | tail -1)"
+echo "baseline with change: $(/verif/vp/baseline.sh $wt | tail -1)"
 bash MUTANT/demo.sh > /dev/null 2>&1; echo "demo with change: exit $?"
 git diff -- src include > /tmp/seed_patch.diff
 git checkout -- src include; make -s > /dev/null 2>&1
